@@ -91,14 +91,31 @@ def premise(chk, P):
                         if isinstance(t, ast.Name) and t.id not in tainted:
                             tainted.add(t.id)
                             changed = True
+        # locals holding a copy of a marker (a_type = a.range_type)
+        mlocals = set()
+        for node in ast.walk(fi.node):
+            if isinstance(node, ast.Assign) and isinstance(node.value, ast.Attribute) and node.value.attr == "range_type":
+                for t in node.targets:
+                    if isinstance(t, ast.Name):
+                        mlocals.add(t.id)
+        for node in ast.walk(fi.node):
+            if isinstance(node, ast.Assign) and not (isinstance(node.value, ast.Attribute) and node.value.attr == "range_type"):
+                for t in node.targets:
+                    if isinstance(t, ast.Name) and t.id in mlocals:
+                        mlocals.discard(t.id)     # also bound to something else: not a pure marker copy
         for node in ast.walk(fi.node):
             kind = None
             if isinstance(node, ast.Name) and node.id in tainted and isinstance(node.ctx, ast.Load):
                 kind = "r" if node.id in tainted0 else node.id
             elif isinstance(node, ast.Attribute) and node.attr == "start" and isinstance(node.ctx, ast.Load):
                 kind = ".start"
-            elif isinstance(node, ast.Attribute) and node.attr == "range_type" and isinstance(node.ctx, ast.Load):
+            elif (isinstance(node, ast.Attribute) and node.attr == "range_type" and isinstance(node.ctx, ast.Load)) or \
+                    (isinstance(node, ast.Name) and node.id in mlocals and isinstance(node.ctx, ast.Load)):
                 p = parents.get(node)
+                if isinstance(node, ast.Attribute) and isinstance(p, ast.Assign) and p.value is node and \
+                        all(isinstance(t, ast.Name) and t.id in mlocals for t in p.targets):
+                    n += 1
+                    continue
                 def marker(c):
                     """the literal '>' / '>=' or a class-level constant of the module holding one (an enum of the markers)"""
                     if isinstance(c, ast.Constant):
